@@ -95,7 +95,7 @@ inductive Verdict where
   | ok | errType | errSig
   deriving DecidableEq, Repr
 
-def decide (f : Facts) : Bool × Verdict :=
+def decideEnv (f : Facts) : Bool × Verdict :=
   (f.sigValid, if !f.expectedTypeMatches then .errType else if !f.sigValid then .errSig else .ok)
 
 /-- the property on one observed (verify, verdict): accepted only when the type is the expected one
